@@ -2,7 +2,7 @@
    Machines: Ops/Combinators.v (x_concat, x_catch, x_retry, x_repeat, x_oern,
    x_while_do, x_do_while, x_catch_handler), run by the runner of Ops/Multi.v. *)
 From RxVerif Require Import Base.Prelude Ops.Machine Ops.Multi Ops.MultiFacts Ops.RunLemmas
-  Ops.Combinators Ops.SequentialFacts Ops.CatchFacts.
+  Ops.Combinators Ops.SequentialFacts Ops.CatchFacts Ops.RepeatFacts.
 
 (* for EVERY input sequence (arbitrary interleaving of all sources, conforming
    or not), at every moment at most one source is subscribed *)
@@ -68,6 +68,32 @@ Theorem C10_oern_closed_form : forall A (srcs : list (list A * term)),
   emitted (fst (run (x_oern (length srcs)) (seq_env_from 0 srcs))) = oern_spec srcs.
 Proof. exact @oern_closed_form. Qed.
 Print Assumptions C10_oern_closed_form.
+
+(* repeat(count) / retry(count) over the successive runs of their source (sequential environment):
+   the elements of every run; repeat goes on after a completed run while the count allows and
+   then completes, an error ends it; retry goes on after a failed run while the count allows and
+   then passes the error on, a completed run completes it *)
+Theorem C10_repeat_closed_form : forall A count (runs : list (list A * term)),
+  emitted (fst (run (x_repeat count) (runs_env runs)))
+  = match count with Some O => [Done] | _ => repeat_spec count 1 runs end.
+Proof. exact @repeat_closed_form. Qed.
+Print Assumptions C10_repeat_closed_form.
+Theorem C10_retry_closed_form : forall A count (runs : list (list A * term)),
+  emitted (fst (run (x_retry count) (runs_env runs)))
+  = match count with Some O => [Done] | _ => retry_spec count 1 runs end.
+Proof. exact @retry_closed_form. Qed.
+Print Assumptions C10_retry_closed_form.
+(* repeat(n) over completing runs: exactly the first n runs, then completion *)
+Theorem C10_repeat_n_completing : forall A (n : nat) (runs : list (list A)), (n <= length runs)%nat -> (0 < n)%nat ->
+  repeat_spec (Some n) 1 (map (fun xs => (xs, TDone)) runs)
+  = map Next (concat (firstn n runs)) ++ [Done].
+Proof. exact @repeat_n_completing. Qed.
+Print Assumptions C10_repeat_n_completing.
+
+Example C10_witness_retry :
+  emitted (fst (run (x_retry (Some 2%nat)) (runs_env [([1], TErr 7); ([2], TErr 8); ([3], TDone)])))
+  = [Next 1; Next 2; Err 8].
+Proof. vm_compute. reflexivity. Qed.
 
 Example C10_witness_catch :
   emitted (fst (run (x_catch 3) (seq_env_from 0 [([1; 2], TErr 7); ([3], TDone); ([4], TDone)])))
